@@ -73,6 +73,7 @@ PosOf(f) == [t |-> f.max, img |-> f.post]
 
 VARIABLES
   \* ---- durable ----
+  dirx,       \* the database's directory exists (a store opens every directory it finds)
   dbx, dbf,   \* database file exists / its pages
   jr,         \* rollback journal [ex, valid, orig, recs : Seq(<<pg, content>>)]
   wal,        \* [ex, salt (0 = no header), txs : Seq([pages, commit])]
@@ -89,7 +90,7 @@ VARIABLES
   \* ---- scenario, bookkeeping ----
   scn, bef, aft, acked, crashes, k, ks, hist
 
-dur  == <<dbx, dbf, jr, wal, ltx, shm>>
+dur  == <<dirx, dbx, dbf, jr, wal, ltx, shm>>
 vol  == <<pc, ctx, cur, todo, tset, rmq, vj, vpos, vtab, vknown, sel>>
 book == <<scn, bef, aft, acked, crashes, k, ks>>
 vars == <<dur, vol, book, hist>>
@@ -122,7 +123,7 @@ TxShapes == {t \in (0..MaxPg) \X Pages \X (SUBSET Pages) :
                /\ \A p \in (t[1] + 1)..t[2] : p \in t[3]}
 Scenarios ==
   (IF "inc" \in Ops THEN {S("inc", t[1], t[2], t[3], "-", <<>>, "stream", FALSE) : t \in {x \in TxShapes : x[1] >= 1}} ELSE {})
-  \cup (IF "snap" \in Ops THEN {S("snap", 0, na, {}, "fresh", <<>>, "stream", FALSE) : na \in Pages}
+  \cup (IF "snap" \in Ops THEN {S("snap", 0, na, {}, "fresh", <<>>, "create", FALSE) : na \in Pages}
                                \cup {S("snap", nb, na, {}, rk, <<>>, "stream", FALSE) : nb \in Pages, na \in Pages, rk \in {"behind", "equal", "ahead"}} ELSE {})
   \cup (IF "restore" \in Ops THEN {S("restore", nb, na, {}, rk, <<>>, "restore", FALSE) : nb \in Pages, na \in Pages, rk \in {"behind", "ahead"}} ELSE {})
   \cup (IF "rdrop" \in Ops THEN {S("rdrop", nb, 0, {}, "-", <<>>, "stream", FALSE) : nb \in Pages} ELSE {})
@@ -130,7 +131,7 @@ Scenarios ==
   \cup (IF "hotw" \in Ops THEN {S("hotw", 0, 0, {}, "-", ns, "sqlite", FALSE) : ns \in [1..3 -> Pages]} ELSE {})
   \cup (IF "pdrop" \in Ops THEN {S("pdrop", nb, 0, {}, "-", <<nb>>, "drop", FALSE) : nb \in Pages}
                                 \cup {S("pdrop", nb, 0, {}, "-", <<nb, n1>>, "drop", TRUE) : nb \in Pages, n1 \in Pages} ELSE {})
-  \cup (IF "hotj" \in Ops THEN {S("hotj", t[1], t[2], t[3], "-", <<>>, "sqlite", FALSE) : t \in TxShapes} ELSE {})
+  \cup (IF "hotj" \in Ops THEN {S("hotj", t[1], t[2], t[3], fin, <<>>, "sqlite", FALSE) : t \in TxShapes, fin \in {"DELETE", "KEEP"}} ELSE {})
 
 E1(n) == [min |-> 1, max |-> 1, commit |-> n, pages |-> Img(n, 1), post |-> Img(n, 1), wsalt |-> 0, wend |-> 0]
 \* a chain of WAL transactions over sizes ns: transaction i takes the database from ns[i] to ns[i+1] pages
@@ -156,7 +157,7 @@ Setup(s) ==
          LET tr == ForkLen(s.rk)
              B == IF tr = 0 THEN <<>> ELSE Img(s.nb, 10 + tr)
          IN [dbx |-> tr > 0, dbf |-> B, wal |-> NoWal, ltx |-> {FLtx(s.nb, j) : j \in 1..tr}, shm |-> tr > 0,
-             pc |-> IF s.op = "snap" THEN "s_create" ELSE "j_open", cur |-> Snap(s.na),
+             pc |-> IF s.op = "restore" THEN "j_open" ELSE IF tr = 0 THEN "n_mkdir" ELSE "s_create", cur |-> Snap(s.na),
              bef |-> [t |-> tr, img |-> B], aft |-> PosOf(Snap(s.na)), acked |-> FALSE]
     [] s.op = "rdrop" ->
          [dbx |-> TRUE, dbf |-> Img(s.nb, 1), wal |-> NoWal, ltx |-> {E1(s.nb)}, shm |-> TRUE, pc |-> "s_create", cur |-> DropLtx(2),
@@ -188,7 +189,8 @@ Setup(s) ==
 Init ==
   /\ scn \in Scenarios
   /\ LET i == Setup(scn)
-     IN /\ dbx = i.dbx /\ dbf = i.dbf /\ jr = NoJr /\ wal = i.wal /\ ltx = i.ltx /\ shm = i.shm
+     IN /\ dirx = ~(scn.op = "snap" /\ scn.rk = "fresh")
+        /\ dbx = i.dbx /\ dbf = i.dbf /\ jr = NoJr /\ wal = i.wal /\ ltx = i.ltx /\ shm = i.shm
         /\ pc = i.pc /\ ctx = scn.cx /\ cur = i.cur /\ bef = i.bef /\ aft = i.aft /\ acked = i.acked
         /\ vpos = i.bef /\ vtab = i.dbf /\ vknown = (i.dbx /\ i.dbf # <<>>)
   /\ todo = <<>> /\ tset = {} /\ rmq = <<>> /\ vj = NoJr /\ sel = NoLtx
@@ -200,7 +202,7 @@ Tick(label) == k' = k + 1 /\ ks' = ks /\ crashes' = crashes /\ hist' = Append(hi
 Live == crashes = 0
 \* where a sub-machine continues
 AfterRollback == "c_open"
-AfterCkpt == IF ctx = "open" THEN "o_init" ELSE IF ctx = "restore" THEN "s_create" ELSE "idle"
+AfterCkpt == IF ctx \in {"open", "create"} THEN "o_init" ELSE IF ctx = "restore" THEN "s_create" ELSE "idle"
 AfterApply == "idle"
 
 (* ====================== Store.processLTXStreamFrame (replica) / DB.WriteLTXFileAt (restore) ====================== *)
@@ -220,13 +222,13 @@ SRename ==                                   \* OS Rename PROCESSLTX / WRITELTX
   /\ LET others == SortFiles(ltx' \ {cur})
      IN IF IsSnap(cur) /\ RenFirst /\ others # <<>> THEN pc' = "s_rm" /\ rmq' = others
         ELSE pc' = AfterLog /\ rmq' = <<>>
-  /\ UNCHANGED <<dbx, dbf, jr, wal, shm, ctx, cur, todo, tset, vj, vpos, vtab, vknown, sel, acked>>
+  /\ UNCHANGED <<dirx, dbx, dbf, jr, wal, shm, ctx, cur, todo, tset, vj, vpos, vtab, vknown, sel, acked>>
   /\ Tick("s_rename")
 SRemove ==                                   \* OS Remove REMOVEFILESEXCEPT, in directory order
   /\ pc = "s_rm"
   /\ ltx' = ltx \ {Head(rmq)} /\ rmq' = Tail(rmq)
   /\ pc' = IF Len(rmq) > 1 THEN "s_rm" ELSE IF RenFirst THEN AfterLog ELSE "s_rename"
-  /\ UNCHANGED <<dbx, dbf, jr, wal, shm, ctx, cur, todo, tset, vj, vpos, vtab, vknown, sel, acked>>
+  /\ UNCHANGED <<dirx, dbx, dbf, jr, wal, shm, ctx, cur, todo, tset, vj, vpos, vtab, vknown, sel, acked>>
   /\ Tick("s_rm:" \o FName(Head(rmq)))
 
 (* ====================== DB.ApplyLTXNoLock ====================== *)
@@ -242,7 +244,7 @@ AOpenDB ==                                   \* OS OpenFile APPLYLTX:DB (O_CREAT
   /\ dbx' = TRUE /\ dbf' = IF dbx THEN dbf ELSE <<>>
   /\ todo' = SortedPairs(cur.pages)
   /\ pc' = IF PagesBeforeTrunc THEN (IF todo' = <<>> THEN "a_trunc" ELSE "a_page") ELSE "a_trunc"
-  /\ UNCHANGED <<jr, wal, ltx, shm, ctx, cur, tset, rmq, vj, vpos, vtab, vknown, sel, acked>>
+  /\ UNCHANGED <<dirx, jr, wal, ltx, shm, ctx, cur, tset, rmq, vj, vpos, vtab, vknown, sel, acked>>
   /\ Tick("a_opendb")
 APage ==                                     \* H1 page write (internal)
   /\ pc = "a_page"
@@ -250,29 +252,29 @@ APage ==                                     \* H1 page write (internal)
      IN /\ dbf' = WriteF(dbf, p, c) /\ vtab' = WriteT(vtab, p, c)
         /\ todo' = Tail(todo)
         /\ pc' = IF Len(todo) > 1 THEN "a_page" ELSE IF PagesBeforeTrunc THEN "a_trunc" ELSE "a_check"
-        /\ UNCHANGED <<dbx, jr, wal, ltx, shm, ctx, cur, tset, rmq, vj, vpos, vknown, sel, acked>>
+        /\ UNCHANGED <<dirx, dbx, jr, wal, ltx, shm, ctx, cur, tset, rmq, vj, vpos, vknown, sel, acked>>
         /\ Tick("a_page:" \o ToString(p))
 ATrunc ==                                    \* H1 truncate (internal)
   /\ pc = "a_trunc"
   /\ dbf' = ResizeF(dbf, cur.commit) /\ vtab' = ResetT(vtab, cur.commit)
   /\ pc' = IF PagesBeforeTrunc \/ todo = <<>> THEN "a_check" ELSE "a_page"
-  /\ UNCHANGED <<dbx, jr, wal, ltx, shm, ctx, cur, todo, tset, rmq, vj, vpos, vknown, sel, acked>>
+  /\ UNCHANGED <<dirx, dbx, jr, wal, ltx, shm, ctx, cur, todo, tset, rmq, vj, vpos, vknown, sel, acked>>
   /\ Tick("a_trunc")
 ARmDB ==                                     \* OS Remove APPLYLTX:DROP:DB
   /\ pc = "a_rmdb" /\ dbx' = FALSE /\ dbf' = <<>> /\ pc' = "a_rmj"
-  /\ UNCHANGED <<jr, wal, ltx, shm, ctx, cur, todo, tset, rmq, vj, vpos, vtab, vknown, sel, acked>>
+  /\ UNCHANGED <<dirx, jr, wal, ltx, shm, ctx, cur, todo, tset, rmq, vj, vpos, vtab, vknown, sel, acked>>
   /\ Tick("a_rmdb")
 ARmJ ==
   /\ pc = "a_rmj" /\ jr' = NoJr /\ pc' = "a_rmwal"
-  /\ UNCHANGED <<dbx, dbf, wal, ltx, shm, ctx, cur, todo, tset, rmq, vj, vpos, vtab, vknown, sel, acked>>
+  /\ UNCHANGED <<dirx, dbx, dbf, wal, ltx, shm, ctx, cur, todo, tset, rmq, vj, vpos, vtab, vknown, sel, acked>>
   /\ Tick("a_rmj")
 ARmWal ==
   /\ pc = "a_rmwal" /\ wal' = NoWal /\ pc' = "a_rmshm"
-  /\ UNCHANGED <<dbx, dbf, jr, ltx, shm, ctx, cur, todo, tset, rmq, vj, vpos, vtab, vknown, sel, acked>>
+  /\ UNCHANGED <<dirx, dbx, dbf, jr, ltx, shm, ctx, cur, todo, tset, rmq, vj, vpos, vtab, vknown, sel, acked>>
   /\ Tick("a_rmwal")
 ARmShm ==
   /\ pc = "a_rmshm" /\ shm' = FALSE /\ pc' = "a_check"
-  /\ UNCHANGED <<dbx, dbf, jr, wal, ltx, ctx, cur, todo, tset, rmq, vj, vpos, vtab, vknown, sel, acked>>
+  /\ UNCHANGED <<dirx, dbx, dbf, jr, wal, ltx, ctx, cur, todo, tset, rmq, vj, vpos, vtab, vknown, sel, acked>>
   /\ Tick("a_rmshm")
 \* the checksum of the per-page table must be the file's post-apply checksum; setPos; updateSHM (OS OpenFile UPDATESHM)
 ChkOK(t, f) == /\ Len(t) >= f.commit
@@ -286,7 +288,7 @@ ACheck ==
              ELSE pc' = AfterApply /\ shm' = (cur.commit > 0)
           /\ acked' = (acked \/ Live)
      ELSE /\ pc' = "failed" /\ UNCHANGED <<vpos, shm, acked>>   \* stream / restore: Exit(99); open: Open returns an error
-  /\ UNCHANGED <<dbx, dbf, jr, wal, ltx, ctx, cur, todo, tset, rmq, vj, vtab, vknown, sel>>
+  /\ UNCHANGED <<dirx, dbx, dbf, jr, wal, ltx, ctx, cur, todo, tset, rmq, vj, vtab, vknown, sel>>
   /\ Tick(IF cur.commit > 0 THEN "a_shm" ELSE "a_done")
 
 (* ====================== DB.rollbackJournal ====================== *)
@@ -308,20 +310,20 @@ JPage ==                                     \* H1 page write (internal)
   /\ LET p == Head(todo)[1]  c == Head(todo)[2]
      IN /\ dbf' = WriteF(dbf, p, c) /\ vtab' = WriteT(vtab, p, c) /\ todo' = Tail(todo)
         /\ pc' = IF Len(todo) > 1 THEN "j_page" ELSE "j_trunc"
-        /\ UNCHANGED <<dbx, jr, wal, ltx, shm, ctx, cur, tset, rmq, vj, vpos, vknown, sel, acked>>
+        /\ UNCHANGED <<dirx, dbx, jr, wal, ltx, shm, ctx, cur, tset, rmq, vj, vpos, vknown, sel, acked>>
         /\ Tick("j_page:" \o ToString(p))
 JTrunc ==                                    \* H1 truncate: never extends the file
   /\ pc = "j_trunc"
   /\ LET n == Min2(vj.orig, Len(dbf)) IN dbf' = ResizeF(dbf, n) /\ vtab' = ResetT(vtab, n)
   /\ pc' = IF RollbackRmLast THEN "j_rm" ELSE AfterRollback
-  /\ UNCHANGED <<dbx, jr, wal, ltx, shm, ctx, cur, todo, tset, rmq, vj, vpos, vknown, sel, acked>>
+  /\ UNCHANGED <<dirx, dbx, jr, wal, ltx, shm, ctx, cur, todo, tset, rmq, vj, vpos, vknown, sel, acked>>
   /\ Tick("j_trunc")
 JRm ==                                       \* OS Remove ROLLBACKJOURNAL
   /\ pc = "j_rm"
   /\ jr' = NoJr
   /\ pc' = IF RollbackRmLast \/ vj = NoJr THEN AfterRollback
            ELSE IF todo # <<>> THEN "j_page" ELSE IF vj.valid THEN "j_trunc" ELSE AfterRollback
-  /\ UNCHANGED <<dbx, dbf, wal, ltx, shm, ctx, cur, todo, tset, rmq, vj, vpos, vtab, vknown, sel, acked>>
+  /\ UNCHANGED <<dirx, dbx, dbf, wal, ltx, shm, ctx, cur, todo, tset, rmq, vj, vpos, vtab, vknown, sel, acked>>
   /\ Tick("j_rm")
 
 (* ====================== DB.CheckpointNoLock ====================== *)
@@ -332,8 +334,8 @@ COpen ==                                     \* OS OpenFile CHECKPOINT:DB
   /\ Tick("c_open")
 COpenWal ==                                  \* OS Open CHECKPOINT:WAL; the frames are scanned
   /\ pc = "c_openwal"
-  /\ IF ~wal.ex THEN pc' = AfterCkpt /\ UNCHANGED <<cur, tset>>
-     ELSE IF wal.txs = <<>> THEN pc' = "c_wal" /\ UNCHANGED <<cur, tset>>
+  /\ IF ~wal.ex THEN pc' = AfterCkpt /\ UNCHANGED <<dirx, cur, tset>>
+     ELSE IF wal.txs = <<>> THEN pc' = "c_wal" /\ UNCHANGED <<dirx, cur, tset>>
      ELSE /\ cur' = [NoLtx EXCEPT !.commit = wal.txs[Len(wal.txs)].commit, !.pages = WalLast(wal.txs)]
           /\ tset' = DOMAIN WalLast(wal.txs)
           /\ pc' = IF CkptWalLast THEN "c_page" ELSE "c_wal"
@@ -345,24 +347,24 @@ CPage ==                                     \* H1 page write (internal), Go map
        /\ dbf' = WriteF(dbf, p, cur.pages[p]) /\ vtab' = WriteT(vtab, p, cur.pages[p])
        /\ tset' = tset \ {p}
        /\ pc' = IF tset' # {} THEN "c_page" ELSE "c_trunc"
-       /\ UNCHANGED <<dbx, jr, wal, ltx, shm, ctx, cur, todo, rmq, vj, vpos, vknown, sel, acked>>
+       /\ UNCHANGED <<dirx, dbx, jr, wal, ltx, shm, ctx, cur, todo, rmq, vj, vpos, vknown, sel, acked>>
        /\ Tick("c_page:" \o ToString(p))
 CTrunc ==                                    \* H1 truncate
   /\ pc = "c_trunc"
   /\ dbf' = ResizeF(dbf, cur.commit) /\ vtab' = ResetT(vtab, cur.commit)
   /\ pc' = IF CkptWalLast THEN "c_wal" ELSE "c_shm"
-  /\ UNCHANGED <<dbx, jr, wal, ltx, shm, ctx, cur, todo, tset, rmq, vj, vpos, vknown, sel, acked>>
+  /\ UNCHANGED <<dirx, dbx, jr, wal, ltx, shm, ctx, cur, todo, tset, rmq, vj, vpos, vknown, sel, acked>>
   /\ Tick("c_trunc")
 CWal ==                                      \* OS Truncate TRUNCATEWAL
   /\ pc = "c_wal"
   /\ wal' = [wal EXCEPT !.salt = 0, !.txs = <<>>]
   /\ pc' = IF CkptWalLast \/ tset = {} THEN "c_shm" ELSE "c_page"
-  /\ UNCHANGED <<dbx, dbf, jr, ltx, shm, ctx, cur, todo, tset, rmq, vj, vpos, vtab, vknown, sel, acked>>
+  /\ UNCHANGED <<dirx, dbx, dbf, jr, ltx, shm, ctx, cur, todo, tset, rmq, vj, vpos, vtab, vknown, sel, acked>>
   /\ Tick("c_wal")
 CShm ==                                      \* OS OpenFile UPDATESHM
   /\ pc = "c_shm"
   /\ shm' = TRUE /\ pc' = AfterCkpt
-  /\ UNCHANGED <<dbx, dbf, jr, wal, ltx, ctx, cur, todo, tset, rmq, vj, vpos, vtab, vknown, sel, acked>>
+  /\ UNCHANGED <<dirx, dbx, dbf, jr, wal, ltx, ctx, cur, todo, tset, rmq, vj, vpos, vtab, vknown, sel, acked>>
   /\ Tick("c_shm")
 
 (* ====================== DB.Drop (primary) ====================== *)
@@ -375,25 +377,25 @@ DRename ==                                   \* OS Rename DROP:LTX
   /\ pc = "d_rename" /\ ltx' = Rename(ltx, cur)
   /\ IF DropRenameFirst THEN pc' = "d_rmdb" /\ UNCHANGED <<vpos, acked>>
      ELSE pc' = "idle" /\ vpos' = PosOf(cur) /\ acked' = TRUE
-  /\ UNCHANGED <<dbx, dbf, jr, wal, shm, ctx, cur, todo, tset, rmq, vj, vtab, vknown, sel>>
+  /\ UNCHANGED <<dirx, dbx, dbf, jr, wal, shm, ctx, cur, todo, tset, rmq, vj, vtab, vknown, sel>>
   /\ Tick("d_rename")
 DRmDB ==
   /\ pc = "d_rmdb" /\ dbx' = FALSE /\ dbf' = <<>> /\ pc' = "d_rmj"
-  /\ UNCHANGED <<jr, wal, ltx, shm, ctx, cur, todo, tset, rmq, vj, vpos, vtab, vknown, sel, acked>>
+  /\ UNCHANGED <<dirx, jr, wal, ltx, shm, ctx, cur, todo, tset, rmq, vj, vpos, vtab, vknown, sel, acked>>
   /\ Tick("d_rmdb")
 DRmJ ==
   /\ pc = "d_rmj" /\ jr' = NoJr /\ pc' = "d_rmwal"
-  /\ UNCHANGED <<dbx, dbf, wal, ltx, shm, ctx, cur, todo, tset, rmq, vj, vpos, vtab, vknown, sel, acked>>
+  /\ UNCHANGED <<dirx, dbx, dbf, wal, ltx, shm, ctx, cur, todo, tset, rmq, vj, vpos, vtab, vknown, sel, acked>>
   /\ Tick("d_rmj")
 DRmWal ==
   /\ pc = "d_rmwal" /\ wal' = NoWal /\ pc' = "d_rmshm"
-  /\ UNCHANGED <<dbx, dbf, jr, ltx, shm, ctx, cur, todo, tset, rmq, vj, vpos, vtab, vknown, sel, acked>>
+  /\ UNCHANGED <<dirx, dbx, dbf, jr, ltx, shm, ctx, cur, todo, tset, rmq, vj, vpos, vtab, vknown, sel, acked>>
   /\ Tick("d_rmwal")
 DRmShm ==                                    \* the last file-level step; the position is set and the call returns
   /\ pc = "d_rmshm" /\ shm' = FALSE
   /\ IF DropRenameFirst THEN pc' = "idle" /\ vpos' = PosOf(cur) /\ acked' = TRUE
      ELSE pc' = "d_rename" /\ UNCHANGED <<vpos, acked>>
-  /\ UNCHANGED <<dbx, dbf, jr, wal, ltx, ctx, cur, todo, tset, rmq, vj, vtab, vknown, sel>>
+  /\ UNCHANGED <<dirx, dbx, dbf, jr, wal, ltx, ctx, cur, todo, tset, rmq, vj, vtab, vknown, sel>>
   /\ Tick("d_rmshm")
 
 (* ====================== SQLite commits (environment) + CommitJournal / CommitWAL ====================== *)
@@ -402,51 +404,62 @@ PJournal ==                                  \* journal created, originals recor
   /\ jr' = [ex |-> TRUE, valid |-> TRUE, orig |-> scn.nb,
             recs |-> SortedPairs([p \in {q \in scn.M : q <= scn.nb} |-> dbf[p]])]
   /\ todo' = SortedPairs(cur.pages) /\ pc' = "p_page"
-  /\ UNCHANGED <<dbx, dbf, wal, ltx, shm, ctx, cur, tset, rmq, vj, vpos, vtab, vknown, sel, acked>>
+  /\ UNCHANGED <<dirx, dbx, dbf, wal, ltx, shm, ctx, cur, tset, rmq, vj, vpos, vtab, vknown, sel, acked>>
   /\ Tick("p_journal")
 PPage ==                                     \* H1 page write (client)
   /\ pc = "p_page"
   /\ LET p == Head(todo)[1]  c == Head(todo)[2]
      IN /\ dbx' = TRUE /\ dbf' = WriteF(dbf, p, c) /\ vtab' = WriteT(vtab, p, c) /\ todo' = Tail(todo)
         /\ pc' = IF Len(todo) > 1 THEN "p_page" ELSE "p_ltx"
-        /\ UNCHANGED <<jr, wal, ltx, shm, ctx, cur, tset, rmq, vj, vpos, vknown, sel, acked>>
+        /\ UNCHANGED <<dirx, jr, wal, ltx, shm, ctx, cur, tset, rmq, vj, vpos, vknown, sel, acked>>
         /\ Tick("p_page:" \o ToString(p))
 PLtx ==                                      \* journal removal -> CommitJournal: OS Rename COMMITJOURNAL:LTX
   /\ pc = "p_ltx" /\ ltx' = Rename(ltx, cur) /\ pc' = "p_jrm"
-  /\ UNCHANGED <<dbx, dbf, jr, wal, shm, ctx, cur, todo, tset, rmq, vj, vpos, vtab, vknown, sel, acked>>
+  /\ UNCHANGED <<dirx, dbx, dbf, jr, wal, shm, ctx, cur, todo, tset, rmq, vj, vpos, vtab, vknown, sel, acked>>
   /\ Tick("p_ltx")
 PJRm ==                                      \* OS Remove INVALIDATEJOURNAL:DELETE; the commit returns to SQLite
-  /\ pc = "p_jrm" /\ jr' = NoJr /\ vpos' = PosOf(cur) /\ acked' = TRUE
+  /\ pc = "p_jrm" /\ vpos' = PosOf(cur) /\ acked' = TRUE
+  /\ jr' = IF scn.rk = "DELETE" THEN NoJr ELSE [ex |-> TRUE, valid |-> FALSE, orig |-> 0, recs |-> <<>>]   \* TRUNCATE / PERSIST keep the file
   /\ pc' = IF cur.commit < Len(dbf) THEN "p_trunc" ELSE "idle"
-  /\ UNCHANGED <<dbx, dbf, wal, ltx, shm, ctx, cur, todo, tset, rmq, vj, vtab, vknown, sel>>
+  /\ UNCHANGED <<dirx, dbx, dbf, wal, ltx, shm, ctx, cur, todo, tset, rmq, vj, vtab, vknown, sel>>
   /\ Tick("p_jrm")
 PTrunc ==                                    \* H1 truncate (client): SQLite cuts the file after the commit
   /\ pc = "p_trunc" /\ dbf' = ResizeF(dbf, cur.commit) /\ vtab' = ResetT(vtab, cur.commit) /\ pc' = "idle"
-  /\ UNCHANGED <<dbx, jr, wal, ltx, shm, ctx, cur, todo, tset, rmq, vj, vpos, vknown, sel, acked>>
+  /\ UNCHANGED <<dirx, dbx, jr, wal, ltx, shm, ctx, cur, todo, tset, rmq, vj, vpos, vknown, sel, acked>>
   /\ Tick("p_trunc")
 WFrames ==                                   \* all frames of the transaction incl. the commit frame are in the WAL
   /\ pc = "w_frames"
   /\ wal' = [wal EXCEPT !.txs = Append(@, [pages |-> cur.pages, commit |-> cur.commit])] /\ pc' = "w_ltx"
-  /\ UNCHANGED <<dbx, dbf, jr, ltx, shm, ctx, cur, todo, tset, rmq, vj, vpos, vtab, vknown, sel, acked>>
+  /\ UNCHANGED <<dirx, dbx, dbf, jr, ltx, shm, ctx, cur, todo, tset, rmq, vj, vpos, vtab, vknown, sel, acked>>
   /\ Tick("w_frames")
 WLtxStep ==                                  \* release of the WAL write lock -> CommitWAL: OS Rename COMMITWAL:LTX
   /\ pc = "w_ltx" /\ ltx' = Rename(ltx, cur) /\ vpos' = PosOf(cur) /\ acked' = TRUE /\ pc' = "idle"
-  /\ UNCHANGED <<dbx, dbf, jr, wal, shm, ctx, cur, todo, tset, rmq, vj, vtab, vknown, sel>>
+  /\ UNCHANGED <<dirx, dbx, dbf, jr, wal, shm, ctx, cur, todo, tset, rmq, vj, vtab, vknown, sel>>
   /\ Tick("w_ltx")
+
+(* ====================== Store.CreateDBIfNotExists (first file of a database arrives) ====================== *)
+NMkdir ==                                    \* OS MkdirAll CREATDEDBIFNOTEXISTS
+  /\ pc = "n_mkdir" /\ dirx' = TRUE /\ pc' = "n_dbfile"
+  /\ UNCHANGED <<dbx, dbf, jr, wal, ltx, shm, ctx, cur, todo, tset, rmq, vj, vpos, vtab, vknown, sel, acked>>
+  /\ Tick("n_mkdir")
+NDbFile ==                                   \* OS WriteFile CREATDEDBIFNOTEXISTS (empty database file), then DB.Open
+  /\ pc = "n_dbfile" /\ dbx' = TRUE /\ dbf' = <<>> /\ pc' = "o_hdr"
+  /\ UNCHANGED <<dirx, jr, wal, ltx, shm, ctx, cur, todo, tset, rmq, vj, vpos, vtab, vknown, sel, acked>>
+  /\ Tick("n_dbfile")
 
 (* ====================== DB.Open ====================== *)
 ValidHdr == dbx /\ Len(dbf) >= 1 /\ dbf[1] # HOLE
 OHdr ==                                      \* OS Open INITDBHDR (an invalid header wipes the database directory)
   /\ pc = "o_hdr"
   /\ IF dbx /\ Len(dbf) >= 1 /\ ~ValidHdr
-     THEN /\ dbx' = FALSE /\ dbf' = <<>> /\ jr' = NoJr /\ wal' = NoWal /\ ltx' = {} /\ shm' = FALSE /\ vknown' = FALSE
+     THEN /\ dbx' = FALSE /\ dbf' = <<>> /\ jr' = NoJr /\ wal' = NoWal /\ ltx' = {} /\ shm' = FALSE /\ vknown' = FALSE /\ dirx' = dirx
      ELSE /\ vknown' = ValidHdr /\ UNCHANGED dur
   /\ pc' = "o_rmshm"
-  /\ UNCHANGED <<ctx, cur, todo, tset, rmq, vj, vpos, vtab, sel, acked>>
+  /\ UNCHANGED <<dirx, ctx, cur, todo, tset, rmq, vj, vpos, vtab, sel, acked>>
   /\ Tick("o_hdr")
 ORmShm ==                                    \* OS Remove OPEN:SHM
   /\ pc = "o_rmshm" /\ shm' = FALSE /\ pc' = "o_max"
-  /\ UNCHANGED <<dbx, dbf, jr, wal, ltx, ctx, cur, todo, tset, rmq, vj, vpos, vtab, vknown, sel, acked>>
+  /\ UNCHANGED <<dirx, dbx, dbf, jr, wal, ltx, ctx, cur, todo, tset, rmq, vj, vpos, vtab, vknown, sel, acked>>
   /\ Tick("o_rmshm")
 OMax ==                                      \* OS ReadDir MAXLTX
   /\ pc = "o_max"
@@ -464,30 +477,32 @@ OSyncWal ==                                  \* OS OpenFile SYNCWAL:WAL; a WAL t
      ELSE IF wal.salt # sel.wsalt THEN pc' = "o_walmv" /\ wal' = wal
      ELSE IF Len(wal.txs) < sel.wend - 1 THEN pc' = "failed" /\ wal' = wal
      ELSE pc' = "j_open" /\ wal' = [wal EXCEPT !.txs = SubSeq(@, 1, Min2(Len(@), sel.wend))]
-  /\ UNCHANGED <<dbx, dbf, jr, ltx, shm, ctx, cur, todo, tset, rmq, vj, vpos, vtab, vknown, sel, acked>>
+  /\ UNCHANGED <<dirx, dbx, dbf, jr, ltx, shm, ctx, cur, todo, tset, rmq, vj, vpos, vtab, vknown, sel, acked>>
   /\ Tick("o_syncwal")
 OWalMv ==                                    \* OS Rename SYNCWAL (other salt: the WAL is moved away)
   /\ pc = "o_walmv" /\ wal' = NoWal /\ pc' = "j_open"
-  /\ UNCHANGED <<dbx, dbf, jr, ltx, shm, ctx, cur, todo, tset, rmq, vj, vpos, vtab, vknown, sel, acked>>
+  /\ UNCHANGED <<dirx, dbx, dbf, jr, ltx, shm, ctx, cur, todo, tset, rmq, vj, vpos, vtab, vknown, sel, acked>>
   /\ Tick("o_walmv")
 OInit ==                                     \* OS Open INITDBFILE: page count from the header, per-page table from the file
   /\ pc = "o_init"
-  /\ IF dbx /\ Len(dbf) >= 1 /\ ~ValidHdr THEN pc' = "failed" /\ UNCHANGED <<vtab, vknown, cur, vpos>>
+  /\ IF dbx /\ Len(dbf) >= 1 /\ ~ValidHdr THEN pc' = "failed" /\ UNCHANGED <<dirx, vtab, vknown, cur, vpos>>
      ELSE /\ IF ValidHdr
              THEN LET hn == IF dbf[1].sz = 0 THEN Len(dbf) ELSE dbf[1].sz
                       n == Min2(hn, Len(dbf))
                   IN vtab' = [p \in 1..n |-> dbf[p]] /\ vknown' = TRUE
              ELSE vtab' = <<>> /\ vknown' = vknown
           /\ IF sel # NoLtx /\ OpenReapplies THEN pc' = "a_open" /\ cur' = sel /\ vpos' = vpos
-             ELSE /\ pc' = "idle" /\ cur' = cur
+             ELSE /\ pc' = (IF ctx = "create" THEN "s_create" ELSE "idle") /\ cur' = cur
                   /\ vpos' = IF sel = NoLtx THEN Pos0 ELSE PosOf(sel)
-  /\ UNCHANGED <<dur, ctx, todo, tset, rmq, vj, sel, acked>>
+  /\ ctx' = IF ctx = "create" /\ pc' = "s_create" THEN "stream" ELSE ctx
+  /\ UNCHANGED <<dur, todo, tset, rmq, vj, sel, acked>>
   /\ Tick("o_init")
 
 (* ====================== process death ====================== *)
 Crash ==
-  /\ crashes < MaxCrash /\ pc # "failed" /\ ~(pc = "idle" /\ crashes > 0)
-  /\ pc' = "o_hdr" /\ ctx' = "open" /\ cur' = NoLtx /\ todo' = <<>> /\ tset' = {} /\ rmq' = <<>> /\ vj' = NoJr
+  /\ crashes < MaxCrash /\ pc # "failed"
+  /\ ~(pc = "idle" /\ crashes > 0 /\ k > 0)   \* a recovered node is a new story (but a restart that found nothing to open may die again)
+  /\ pc' = (IF dirx THEN "o_hdr" ELSE "idle") /\ ctx' = "open" /\ cur' = NoLtx /\ todo' = <<>> /\ tset' = {} /\ rmq' = <<>> /\ vj' = NoJr
   /\ vpos' = Pos0 /\ vtab' = <<>> /\ vknown' = FALSE /\ sel' = NoLtx
   \* the checkpoint copies pages in any order: which ones were done is part of the crash point (the
   \* recovered states of two orders coincide, and every crash point must be emitted)
@@ -501,7 +516,7 @@ Next == \/ SCreate \/ SRename \/ SRemove
         \/ COpen \/ COpenWal \/ CPage \/ CTrunc \/ CWal \/ CShm
         \/ DCreate \/ DRename \/ DRmDB \/ DRmJ \/ DRmWal \/ DRmShm
         \/ PJournal \/ PPage \/ PLtx \/ PJRm \/ PTrunc \/ WFrames \/ WLtxStep
-        \/ OHdr \/ ORmShm \/ OMax \/ OSync \/ OSyncWal \/ OWalMv \/ OInit
+        \/ NMkdir \/ NDbFile \/ OHdr \/ ORmShm \/ OMax \/ OSync \/ OSyncWal \/ OWalMv \/ OInit
         \/ Crash
 Spec == Init /\ [][Next]_vars
 
@@ -520,7 +535,7 @@ C05_BeforeOrAfter == Recovered => vpos \in {bef, aft}
 C05_ImageOfPos == Recovered => /\ DiskImg = vpos.img
                                /\ (dbx => \A p \in 1..Len(dbf) : p <= Len(vtab) /\ vtab[p] = dbf[p])
 \* nothing is left for SQLite to replay
-C05_NothingToReplay == Recovered => ~jr.ex /\ ~WalLeft
+C05_NothingToReplay == Recovered => ~(jr.ex /\ jr.valid) /\ ~WalLeft
 \* what had returned success is not lost
 C05_AckKept == (Recovered /\ acked) => vpos = aft
 \* the model itself: an operation that is not interrupted ends at the after-position with the after-image
